@@ -89,6 +89,26 @@ func runC25(c *eng.Ctx) {
 					stores = append(stores, in)
 				}
 				okRec = len(stores) == 1
+				// the shared error is sticky: no store into it from the worker may carry a nil (a sibling chunk that
+				// succeeds later must not erase an earlier failure)
+				for _, in := range eng.Find(worker, func(in ssa.Instruction) bool {
+					st, ok := in.(*ssa.Store)
+					if !ok {
+						return false
+					}
+					fv, isFV := st.Addr.(*ssa.FreeVar)
+					return isFV && fv.Name() == "uploadErr"
+				}) {
+					st := in.(*ssa.Store)
+					nonNil := eng.PassEdges(worker, eng.ErrNotNil(st.Val))
+					sticky := len(nonNil) > 0
+					if sticky {
+						if hit, _ := eng.Search(eng.Entry(worker), eng.Is(st), eng.SearchOpt{Cut: nonNil}); hit != nil {
+							sticky = false
+						}
+					}
+					c.Ob("ERR-body", eng.FuncName(worker)+" shared-error-is-sticky", sticky, st.Pos(), "a worker writes the shared upload error only with a non-nil error (a later successful chunk cannot erase an earlier failure)")
+				}
 				if okRec {
 					for _, st := range startsOf(eng.PassEdges(worker, eng.ErrNotNil(e))) {
 						if hit, _ := eng.Search(st, eng.IsReturn, eng.SearchOpt{Barrier: eng.Is(stores[0])}); hit != nil {
@@ -138,7 +158,7 @@ func runC25(c *eng.Ctx) {
 		}
 		c.Ob("PROV-offset", eng.FuncName(up)+" reads-through-md5-tee", okTee, up.Pos(), "every chunk is read from the request body through the MD5 tee, limited to the chunk size")
 	}
-	c.Expect("ERR-body", 4)
+	c.Expect("ERR-body", 5)
 	c.Expect("PROV-offset", 3)
 
 	// ---------------------------------------------------------------- (2) GUARD-commit
